@@ -132,9 +132,17 @@ func attrBody(b *hclsyntax.Body, toks []hclsyntax.Token, lo, hi int) *aBody {
 		ls := fi
 		for ls-1 >= lo && isComment(toks[ls-1]) {
 			j := ls - 1
-			if j-1 >= 0 && !isComment(toks[j-1]) && toks[j-1].Type != hclsyntax.TokenNewline &&
-				toks[j-1].Range.End.Line == toks[j].Range.Start.Line {
-				break // line comment of the previous item
+			// Is there a significant token earlier on the line this comment
+			// starts on (possibly with other comments in between)?  Then it is a
+			// trailing comment of that line (of the previous item, or of the
+			// block's opening brace), not a lead comment of this item.
+			k := j - 1
+			for k >= 0 && isComment(toks[k]) && toks[k].Range.End.Line == toks[j].Range.Start.Line {
+				k--
+			}
+			if k >= 0 && !isComment(toks[k]) && toks[k].Type != hclsyntax.TokenNewline &&
+				toks[k].Range.End.Line == toks[j].Range.Start.Line {
+				break
 			}
 			ls--
 		}
@@ -172,7 +180,19 @@ func attrBody(b *hclsyntax.Body, toks []hclsyntax.Token, lo, hi int) *aBody {
 				continue
 			}
 			it.unit = mk(ls, ob)
-			it.oneLine = bl.OpenBraceRange.Start.Line == bl.CloseBraceRange.Start.Line
+			// single-line form: what follows the opening brace (possibly after
+			// comments) is not a line end
+			it.oneLine = true
+			for i := ob + 1; i < cb; i++ {
+				if toks[i].Type == hclsyntax.TokenNewline ||
+					(isComment(toks[i]) && strings.HasSuffix(string(toks[i].Bytes), "\n")) {
+					it.oneLine = false
+					break
+				}
+				if !isComment(toks[i]) {
+					break
+				}
+			}
 			it.body = attrBody(bl.Body, toks, ob+1, cb)
 			for i := ob + 1; i <= cb; i++ {
 				used[i] = true
